@@ -46,6 +46,8 @@ structure Skel (τ α : Type) where
   star : α
   /-- pipes after the filter: `parsePipes` (returns ok when the whole tail was consumed) -/
   pipes : List τ → PRes Unit
+  /-- `maxQueryNesting` (`none` = the code before the nesting limit was introduced) -/
+  maxNest : Option Nat
 
 variable {τ α : Type}
 
@@ -55,44 +57,57 @@ def joinOr (left : Option (Ast α)) (right : Ast α) : Ast α :=
   | none => right
   | some l => .bin .or l right
 
-/-! ## SeqQL -/
+/-- `lex.nesting >= maxQueryNesting` at the entry of `parseSeqQLSubexpr` / `parseSubexpr` -/
+def Skel.tooDeep (S : Skel τ α) (nest : Nat) : Bool :=
+  match S.maxNest with
+  | none => false
+  | some mx => decide (mx ≤ nest)
+
+/-! ## SeqQL
+
+`nest` is the value of `lex.nesting` when the function is entered (it is only changed by `parseSeqQLSubexpr`:
+incremented after the limit check, restored on return). -/
 
 mutual
 /-- `parseSeqQLFilter(lex, mapping, depth)`: `cur, err := parseSeqQLSubexpr(...)` then the loop -/
-def sqFilter (S : Skel τ α) : Nat → List τ → Nat → PRes (Ast α × List τ)
-  | 0, _, _ => .oof
-  | f+1, toks, d => (sqSub S f toks d).bind fun p => sqLoop S f none p.1 p.2 d
+def sqFilter (S : Skel τ α) : Nat → List τ → Nat → Nat → PRes (Ast α × List τ)
+  | 0, _, _, _ => .oof
+  | f+1, toks, d, nest => (sqSub S f toks d nest).bind fun p => sqLoop S f none p.1 p.2 d nest
+termination_by structural f _ _ _ => f
 
 /-- the `for { ... }` of `parseSeqQLFilter` with its state `res`, `cur` -/
-def sqLoop (S : Skel τ α) : Nat → Option (Ast α) → Ast α → List τ → Nat → PRes (Ast α × List τ)
-  | 0, _, _, _, _ => .oof
-  | f+1, res, cur, toks, d =>
+def sqLoop (S : Skel τ α) : Nat → Option (Ast α) → Ast α → List τ → Nat → Nat → PRes (Ast α × List τ)
+  | 0, _, _, _, _, _ => .oof
+  | f+1, res, cur, toks, d, nest =>
     match toks with
     | [] => .ok (joinOr res cur, [])                                       -- `lex.IsEnd()`
     | t :: r =>
       match S.kind t with
-      | .and => (sqSub S f r d).bind fun p => sqLoop S f res (.bin .and cur p.1) p.2 d
-      | .or => (sqSub S f r d).bind fun p => sqLoop S f (some (joinOr res cur)) p.1 p.2 d
+      | .and => (sqSub S f r d nest).bind fun p => sqLoop S f res (.bin .and cur p.1) p.2 d nest
+      | .or => (sqSub S f r d nest).bind fun p => sqLoop S f (some (joinOr res cur)) p.1 p.2 d nest
       | .rp => if d > 0 then .ok (joinOr res cur, toks) else .err           -- `lex.IsKeyword(")") && depth > 0`
       | .pipe => .ok (joinOr res cur, toks)                                 -- `lex.IsKeyword("|")`
       | _ => .err                                                           -- "expected 'and', 'or', 'not'"
+termination_by structural f _ _ _ _ _ => f
 
 /-- `parseSeqQLSubexpr(lex, mapping, depth)` -/
-def sqSub (S : Skel τ α) : Nat → List τ → Nat → PRes (Ast α × List τ)
-  | 0, _, _ => .oof
-  | f+1, toks, d =>
-    match toks with
+def sqSub (S : Skel τ α) : Nat → List τ → Nat → Nat → PRes (Ast α × List τ)
+  | 0, _, _, _ => .oof
+  | f+1, toks, d, nest =>
+    if S.tooDeep nest then .err                                             -- "query is nested too deeply"
+    else match toks with
     | [] => .err                                                            -- "unexpected end of query"
     | t :: r =>
       if S.kind t = .star ∧ d = 0 then .ok (.leaf S.star, r)
       else if S.kind t = .lp then
-        (sqFilter S f r (d+1)).bind fun p =>
+        (sqFilter S f r (d+1) (nest+1)).bind fun p =>
           match p.2 with
           | t' :: r' => if S.kind t' = .rp then .ok (p.1, r') else .err     -- "missing ')'"
           | [] => .err
       else if S.kind t = .not then
-        (sqSub S f r d).bind fun p => .ok (.not p.1, p.2)
+        (sqSub S f r d (nest+1)).bind fun p => .ok (.not p.1, p.2)
       else S.atom toks
+termination_by structural f _ _ _ => f
 end
 
 def fuelFor (toks : List τ) : Nat := 2 * toks.length + 2
@@ -100,7 +115,7 @@ def fuelFor (toks : List τ) : Nat := 2 * toks.length + 2
 /-- `ParseSeqQL` up to (not including) `propagateNot`: filter, optional pipes, then the `lex.IsEnd()` check whose
 failure is `panic("BUG: lexer is not end")`. -/
 def sqParseRaw (S : Skel τ α) (toks : List τ) : PRes (Ast α) :=
-  (sqFilter S (fuelFor toks) toks 0).bind fun p =>
+  (sqFilter S (fuelFor toks) toks 0 0).bind fun p =>
     match p.2 with
     | [] => .ok p.1
     | t :: _ =>
@@ -115,43 +130,47 @@ def sqParse (S : Skel τ α) (toks : List τ) : PRes (Ast α) :=
 
 mutual
 /-- `parseExpr(depth)`: `leftHigh, err := qp.parseSubexpr(depth)` then the loop -/
-def lgExpr (S : Skel τ α) : Nat → List τ → Nat → PRes (Ast α × List τ)
-  | 0, _, _ => .oof
-  | f+1, toks, d => (lgSub S f toks d).bind fun p => lgLoop S f none p.1 p.2 d
+def lgExpr (S : Skel τ α) : Nat → List τ → Nat → Nat → PRes (Ast α × List τ)
+  | 0, _, _, _ => .oof
+  | f+1, toks, d, nest => (lgSub S f toks d nest).bind fun p => lgLoop S f none p.1 p.2 d nest
+termination_by structural f _ _ _ => f
 
 /-- the `for { ... }` of `parseExpr` with `leftLow`, `leftHigh` -/
-def lgLoop (S : Skel τ α) : Nat → Option (Ast α) → Ast α → List τ → Nat → PRes (Ast α × List τ)
-  | 0, _, _, _, _ => .oof
-  | f+1, leftLow, leftHigh, toks, d =>
+def lgLoop (S : Skel τ α) : Nat → Option (Ast α) → Ast α → List τ → Nat → Nat → PRes (Ast α × List τ)
+  | 0, _, _, _, _, _ => .oof
+  | f+1, leftLow, leftHigh, toks, d, nest =>
     match toks with
     | [] => .ok (joinOr leftLow leftHigh, [])                 -- operator "" and `qp.eof()`
     | t :: r =>
       match S.kind t with
-      | .and => (lgSub S f r d).bind fun p => lgLoop S f leftLow (.bin .and leftHigh p.1) p.2 d
-      | .or => (lgSub S f r d).bind fun p => lgLoop S f (some (joinOr leftLow leftHigh)) p.1 p.2 d
+      | .and => (lgSub S f r d nest).bind fun p => lgLoop S f leftLow (.bin .and leftHigh p.1) p.2 d nest
+      | .or => (lgSub S f r d nest).bind fun p => lgLoop S f (some (joinOr leftLow leftHigh)) p.1 p.2 d nest
       | .rp => if d > 0 then .ok (joinOr leftLow leftHigh, toks) else .err
       | _ => .err
+termination_by structural f _ _ _ _ _ => f
 
 /-- `parseSubexpr(depth)` -/
-def lgSub (S : Skel τ α) : Nat → List τ → Nat → PRes (Ast α × List τ)
-  | 0, _, _ => .oof
-  | f+1, toks, d =>
-    match toks with
+def lgSub (S : Skel τ α) : Nat → List τ → Nat → Nat → PRes (Ast α × List τ)
+  | 0, _, _, _ => .oof
+  | f+1, toks, d, nest =>
+    if S.tooDeep nest then .err                               -- "query is nested too deeply"
+    else match toks with
     | [] => .err                                              -- errorEOF("token expression")
     | t :: r =>
       if S.kind t = .lp then
-        (lgExpr S f r (d+1)).bind fun p =>
+        (lgExpr S f r (d+1) (nest+1)).bind fun p =>
           match p.2 with
           | t' :: r' => if S.kind t' = .rp then .ok (p.1, r') else .err
           | [] => .err
       else if S.kind t = .not then
-        (lgSub S f r d).bind fun p => .ok (.not p.1, p.2)
+        (lgSub S f r d (nest+1)).bind fun p => .ok (.not p.1, p.2)
       else S.atom toks
+termination_by structural f _ _ _ => f
 end
 
 /-- `buildAst`: `parseExpr(0)`; at depth 0 the loop only returns at end of input -/
 def lgParseRaw (S : Skel τ α) (toks : List τ) : PRes (Ast α) :=
-  (lgExpr S (fuelFor toks) toks 0).bind fun p => .ok p.1
+  (lgExpr S (fuelFor toks) toks 0 0).bind fun p => .ok p.1
 
 /-- `ParseQuery` -/
 def lgParse (S : Skel τ α) (toks : List τ) : PRes (Ast α) :=
